@@ -24,7 +24,7 @@ RULE = ("state space = fitted models x query rows x ENVIRONMENT ANSWERS (the uni
 ASSUMPTIONS = ["predict consumes randomness only through rand/random_sample/random/uniform/choice of the RandomState it is given; a call to any "
                "other generator method marks the model 'uncontrolled' and only layer B (real seeds) is applied",
                "cells of measure zero (u exactly on a breakpoint) are not asserted"]
-CLASSES = ["thresholder", "eg_classification", "eg_regression", "eg_regression_unsorted_weights", "prob_strictly_between_0_1",
+CLASSES = ["thresholder", "eg_classification", "eg_classification_unsorted_weights", "eg_regression", "eg_regression_unsorted_weights", "prob_strictly_between_0_1",
            "prob_0_or_1", "p_ignore_model", "flip_model"]
 DELTA = 2.0 ** -30
 
@@ -51,6 +51,12 @@ def cases(tier, seed):
     for rows in _datasets(2, 3, (3,)):
         if len({r[1] for r in rows}) == 3:
             yield {"kind": "eg", "rows": rows, "tier": tier}
+    # classification runs (k=3 feature values, 3 groups, n=5, LP step off) whose weights_ index is NOT in predictor-id order:
+    # found by scanning that space once (tools note in DESIGN section 2/C10); they exercise the by-label alignment of the mixture
+    import json
+    import os
+    for spec in json.load(open(os.path.join(os.path.dirname(os.path.abspath(__file__)), "c10_unsorted_cases.json")))[: (12 if tier == "quick" else 24)]:
+        yield {"kind": "eg5", "rows": spec["rows"], "moment": spec["moment"], "bound": spec["bound"], "eps": spec["eps"], "tier": tier}
     rt = [(x, g, v) for x in (0, 1) for g in "ab" for v in (0.0, 0.5, 1.0)]
     for n in ((3,) if tier == "quick" else (3, 4)):
         for ms in itertools.combinations_with_replacement(range(len(rt)), n):
@@ -241,10 +247,15 @@ def _run_eg(case):
     Xq = np.array([[0.0], [1.0], [0.0], [1.0], [1.0]])
     nq = len(Xq)
     outcome = []
-    for name in (PARITY if case["tier"] != "quick" else ["DemographicParity", "EqualizedOdds", "ErrorRateParity"]):
-        for lp in (True, False):
-            ctx = "ExponentiatedGradient %s(difference_bound=0.1) LP=%s rows=%r" % (name, lp, rows)
-            eg = red.ExponentiatedGradient(ExactLearner(), getattr(red, name)(difference_bound=0.1), eps=0.05, max_iter=8, run_linprog_step=lp)
+    if case["kind"] == "eg5":
+        plan = [(case["moment"], False, case["bound"], case["eps"], 12)]
+        Xq = np.array([[0.0], [1.0], [2.0], [1.0], [2.0]])
+    else:
+        plan = [(nm, lp, 0.1, 0.05, 8) for nm in (PARITY if case["tier"] != "quick" else ["DemographicParity", "EqualizedOdds", "ErrorRateParity"]) for lp in (True, False)]
+    for name, lp, bnd, eps_, mi in plan:
+        if True:
+            ctx = "ExponentiatedGradient %s(difference_bound=%r) eps=%r max_iter=%d LP=%s rows=%r" % (name, bnd, eps_, mi, lp, rows)
+            eg = red.ExponentiatedGradient(ExactLearner(), getattr(red, name)(difference_bound=bnd), eps=eps_, max_iter=mi, run_linprog_step=lp)
             eg.fit(X, np.array(y), sensitive_features=np.array(a))
             out["evals"] += 1
             pmf = np.asarray(eg._pmf_predict(Xq), float)
@@ -252,6 +263,8 @@ def _run_eg(case):
                 V.append(viol("C10:eg:pmf-invalid", "pmf rows not a distribution: %r (%s)" % (pmf.tolist(), ctx)))
                 continue
             w = eg.weights_
+            if list(w.index) != sorted(w.index):
+                out["classes"].add("eg_classification_unsorted_weights")
             mix = np.zeros(nq)
             for t in w.index:
                 if w[t] != 0:
@@ -347,7 +360,7 @@ def _run_egreg(case):
 
 
 def run_case(case):
-    return {"to": _run_to, "eg": _run_eg, "egreg": _run_egreg}[case["kind"]](case)
+    return {"to": _run_to, "eg": _run_eg, "eg5": _run_eg, "egreg": _run_egreg}[case["kind"]](case)
 
 
 LEVEL_TEXT = ("The only nondeterminism of predict - the uniform draws - is owned through a scripted RandomState, and for every fitted model "
